@@ -347,3 +347,63 @@ Definition ex_cfg := {| c_pal := {| p_background := 1%N; p_node := 2%N; p_edge :
 Example ex_guards : NoDup (map ni_idx (tree_infos ex_tree)) /\
                     perm_eqb Z.eqb (map ni_idx (tree_infos ex_tree)) (hv_nodes ex_view) = true.
 Proof. split; [|reflexivity]. cbn. repeat constructor; cbn; intuition discriminate. Qed.
+
+(* ---- seeded round 5: a drawing is determined by the HUGR and the options of that rendering ---- *)
+Lemma palette_eqb_eq a b : palette_eqb a b = true <-> a = b.
+Proof.
+  split.
+  - destruct a, b. unfold palette_eqb. cbn. rewrite !andb_true_iff, !N.eqb_eq. intuition congruence.
+  - intros ->. destruct b. unfold palette_eqb. cbn. now rewrite !N.eqb_refl.
+Qed.
+Lemma config_eqb_eq a b : config_eqb a b = true <-> a = b.
+Proof.
+  split.
+  - destruct a as [pa qa], b as [pb qb]. unfold config_eqb. cbn. rewrite andb_true_iff, palette_eqb_eq.
+    intros [-> E]. apply Bool.eqb_prop in E. now subst.
+  - intros ->. unfold config_eqb. rewrite (proj2 (palette_eqb_eq _ _) eq_refl). now destruct (c_qualify b).
+Qed.
+Lemma determined_b_sound rs : determined_b rs = true -> Determined rs.
+Proof.
+  induction rs as [|[c d] r IH]; cbn [determined_b]; intros E; [constructor|].
+  apply andb_true_iff in E. destruct E as [E1 E2]. constructor; [|apply IH, E2].
+  intros c' d' Hin ->. rewrite forallb_forall in E1. specialize (E1 _ Hin). cbn in E1.
+  rewrite (proj2 (config_eqb_eq c c) eq_refl) in E1. exact E1.
+Qed.
+Lemma determined_b_complete rs : Determined rs -> determined_b rs = true.
+Proof.
+  induction 1 as [|c d r H _ IH]; cbn [determined_b]; [reflexivity|]. rewrite IH, andb_true_r.
+  apply forallb_forall. intros [c' d'] Hin. cbn. destruct (config_eqb c' c) eqn:E; [|reflexivity].
+  apply config_eqb_eq in E. cbn. exact (H c' d' Hin E).
+Qed.
+Lemma nstmt_eqb_refl s : nstmt_eqb s s = true.
+Proof. unfold nstmt_eqb, str_eqb. now rewrite !Z.eqb_refl, !zlist_eqb_refl, !N.eqb_refl. Qed.
+Lemma estmt_eqb_refl e : estmt_eqb e e = true.
+Proof. unfold estmt_eqb. now rewrite !Z.eqb_refl, str_eqb_refl, N.eqb_refl. Qed.
+Fixpoint dnode_peqb_refl (d : dnode) : dnode_peqb d d = true.
+Proof.
+  destruct d as [s | i body s c].
+  - cbn. apply nstmt_eqb_refl.
+  - cbn [dnode_peqb]. rewrite Z.eqb_refl, nstmt_eqb_refl, N.eqb_refl. cbn [andb].
+    revert body. fix IH 1. intros [|p r]; [reflexivity|].
+    cbn [take1]. rewrite (dnode_peqb_refl p). apply IH.
+Qed.
+Lemma dot_peqb_refl d : dot_peqb d d = true.
+Proof.
+  unfold dot_peqb. rewrite N.eqb_refl, dnode_peqb_refl. cbn [andb]. apply perm_eqb_refl, estmt_eqb_refl.
+Qed.
+(* the model: whatever renderings of one HUGR are made, under whatever options and in whatever order (the model's
+   render is a function of the options and of what it reads from the HUGR - it has no other input) *)
+Lemma render_determined t ls cs : Determined (map (fun c => (c, render c t ls)) cs).
+Proof.
+  induction cs as [|c r IH]; cbn [map]; constructor; [|exact IH].
+  intros c' d' Hin ->. apply in_map_iff in Hin. destruct Hin as [c2 [E _]]. inversion E; subst. apply dot_peqb_refl.
+Qed.
+(* non-vacuity: two renderings of the example under the same options that differ in a name are rejected, under
+   different options they are accepted *)
+Example ex_determined :
+  determined_b [(ex_cfg, render ex_cfg ex_tree (hv_links ex_view));
+                (ex_cfg, render {| c_pal := c_pal ex_cfg; c_qualify := true |} ex_tree (hv_links ex_view))] = false /\
+  determined_b [(ex_cfg, render ex_cfg ex_tree (hv_links ex_view));
+                ({| c_pal := c_pal ex_cfg; c_qualify := true |},
+                 render {| c_pal := c_pal ex_cfg; c_qualify := true |} ex_tree (hv_links ex_view))] = true.
+Proof. split; reflexivity. Qed.
